@@ -385,9 +385,55 @@ def wrap_scenario(ctx):
         h.close()
 
 
+def nested_scenarios(ctx):
+    """A call made and waited for from INSIDE a callback that dbus_connection_dispatch() is running - a pending call's notify
+    function, a message filter, an object-path handler - with either blocking API, the reply being the first message of the
+    incoming queue or queued behind an unrelated signal: the nested call completes with its own reply, not with a time-out."""
+    n = 0
+    for where in 'nfh':
+        for mode in 'bp':
+            for ahead in (0, 1, 2):
+                case = {'nested': [where, mode, ahead]}
+                h = Harness('vconn')
+                try:
+                    h.cmd('OPEN')
+                    sig = lambda k: R.encode_message(R.signal(700 + k, '/x', 'x.y', 'Ahead', [R.U(k)]))
+                    tail = b''.join(sig(k) for k in range(ahead))
+                    h.cmd('NEST %s %s' % (where, mode))
+                    if where == 'n':
+                        kv = parse_kv(h.cmd('CALL 0 5000'))
+                        h.cmd('PUMP')
+                        trig = R.encode_message(R.method_return(600, int(kv['serial']), None, [R.U(0)]))
+                    elif where == 'f':
+                        trig = R.encode_message(R.signal(600, '/x', 'x.y', 'Trigger', [R.U(0)]))
+                    else:
+                        h.cmd('REG /h h')
+                        trig = R.encode_message(R.method_call(600, None, '/h', 'x.y', 'Poke', [], flags=1))
+                    resp = h.cmd('PEER ' + (trig + tail).hex())
+                    n += 1
+                    mo = re.search(r'N%s%s:(\d+):(\d+):([^:;]+):(\d+);' % (where, mode), resp)
+                    if not mo:
+                        ctx.add_violation(Violation('nested-call', 'not-made', 'nested call from %s (%s, %d signals behind the trigger) did not run: %s' % (where, mode, ahead, resp[:300]), case))
+                    elif mo.group(1) != '2' or mo.group(2) != mo.group(4) or mo.group(3) != '-':
+                        ctx.add_violation(Violation('not-completed', 'nested-' + {'n': 'notify', 'f': 'filter', 'h': 'handler'}[where],
+                                                    'a call made inside a %s callback (%s, its reply already written by the peer, %d other messages queued) completed with type=%s reply_serial=%s error=%s instead of its reply (serial %s)' %
+                                                    ({'n': 'notify', 'f': 'filter', 'h': 'handler'}[where], {'b': 'send_with_reply_and_block', 'p': 'send_with_reply + block'}[mode], ahead, mo.group(1), mo.group(2), mo.group(3), mo.group(4)), case))
+                    # the unrelated signals are still delivered, once each, afterwards
+                    resp2 = h.cmd('PUMP')
+                    seen = len(re.findall(r'f:4:Ahead:', resp + resp2))
+                    if seen != ahead:
+                        ctx.add_violation(Violation('message-lost-or-duplicated', 'nested', 'after a nested call in %s the %d signals queued with the trigger reached the filter %d times' % (where, ahead, seen), case))
+                except HarnessDied as e:
+                    ctx.add_violation(crash_violation(e, case))
+                finally:
+                    h.close()
+    ctx.hit('nested-call-scenarios', n)
+
+
 def run(ctx):
     quick = ctx.tier == 'quick'
     depth = 5 if quick else 7
+    nested_scenarios(ctx)
     with ctx.sub_budget(0.45):      # leave at least half of the time to the thread part
         st = explore.bfs(ctx, FACTORY, {'ncalls': 2 if quick else 3}, max_depth=depth, ops_chunk=8)
     serials = wrap_scenario(ctx)
@@ -414,6 +460,11 @@ def run_threads(ctx):
 
 
 def replay(case):
+    if case.get('nested'):
+        from ..engine import Ctx
+        c = Ctx('C17', 'quick', 'model_checking')
+        nested_scenarios(c)
+        return [v for vs in c.violations.values() for v in vs]
     if case.get('wrap'):
         from ..engine import Ctx
         c = Ctx('C17', 'quick', 'model_checking')
